@@ -2246,3 +2246,119 @@ M("c16-binary-empty-list-rejected", "C16", "thirdparty/github.com/apache/thrift/
   "func (p *TBinaryProtocol) ReadListBegin() (elemType TType, size int, err error) {\n	b, e := p.ReadByte()\n	if e != nil {\n		err = NewTProtocolException(e)\n		return\n	}\n	elemType = TType(b)\n	size32, e := p.ReadI32()\n	if e != nil {\n		err = NewTProtocolException(e)\n		return\n	}\n	if size32 < 0 {", "func (p *TBinaryProtocol) ReadListBegin() (elemType TType, size int, err error) {\n	b, e := p.ReadByte()\n	if e != nil {\n		err = NewTProtocolException(e)\n		return\n	}\n	elemType = TType(b)\n	size32, e := p.ReadI32()\n	if e != nil {\n		err = NewTProtocolException(e)\n		return\n	}\n	if size32 <= 0 {", expect="O8 size-guards")
 M("c10-timer-alloc-panic-swallowed", "C10", "scope.go",
   "		cachedTimer = s.cachedReporter.AllocateTimer(\n			s.fullyQualifiedName(name), s.tags,\n		)", "		func() {\n			defer func() { _ = recover() }()\n			cachedTimer = s.cachedReporter.AllocateTimer(\n				s.fullyQualifiedName(name), s.tags,\n			)\n		}()", expect="O8 no-swallowed-panic")
+
+# ---------------------------------------------------------------- function literals in the lock engine (round 8)
+B("c09-benign-deferred-literal-unlock", "C09", "scope.go",
+  """	s.cm.Lock()
+	defer s.cm.Unlock()
+
+	if c, ok := s.counters[name]; ok {""", """	s.cm.Lock()
+	defer func() { s.cm.Unlock() }()
+
+	if c, ok := s.counters[name]; ok {""")
+M("c09-deferred-literal-conditional-unlock", "C09", "scope.go",
+  """	s.cm.Lock()
+	defer s.cm.Unlock()
+
+	if c, ok := s.counters[name]; ok {""", """	s.cm.Lock()
+	defer func() {
+		if name != "" {
+			s.cm.Unlock()
+		}
+	}()
+
+	if c, ok := s.counters[name]; ok {""", expect="lock-pairing")
+B("c07-benign-literal-section", "C07", "scope_registry.go",
+  """		subscopeBucket.mu.RLock()
+		for _, s := range subscopeBucket.s {
+			f(s)
+		}
+		subscopeBucket.mu.RUnlock()""", """		func() {
+			subscopeBucket.mu.RLock()
+			defer subscopeBucket.mu.RUnlock()
+			for _, s := range subscopeBucket.s {
+				f(s)
+			}
+		}()""")
+B("c11-benign-literal-section", "C11", "scope_registry.go",
+  """		subscopeBucket.mu.RLock()
+		for _, s := range subscopeBucket.s {
+			f(s)
+		}
+		subscopeBucket.mu.RUnlock()""", """		func() {
+			subscopeBucket.mu.RLock()
+			defer subscopeBucket.mu.RUnlock()
+			for _, s := range subscopeBucket.s {
+				f(s)
+			}
+		}()""")
+M("c11-walk-second-list", "C11", "scope_registry.go",
+  """		for _, s := range subscopeBucket.s {
+			f(s)
+		}
+		subscopeBucket.mu.RUnlock()""", """		for _, s := range subscopeBucket.s {
+			if s != r.root {
+				continue
+			}
+			f(r.root)
+		}
+		subscopeBucket.mu.RUnlock()""", expect="visits-registered-scopes")
+_FOREACH_OLD = """func (r *scopeRegistry) ForEachScope(f func(*scope)) {
+	for _, subscopeBucket := range r.subscopes {
+		subscopeBucket.mu.RLock()
+		for _, s := range subscopeBucket.s {
+			f(s)
+		}
+		subscopeBucket.mu.RUnlock()
+	}
+}"""
+B("c07-benign-lock-every-shard", "C07", "scope_registry.go", _FOREACH_OLD, """func (r *scopeRegistry) ForEachScope(f func(*scope)) {
+	for _, subscopeBucket := range r.subscopes {
+		subscopeBucket.mu.RLock()
+	}
+	defer func() {
+		for _, subscopeBucket := range r.subscopes {
+			subscopeBucket.mu.RUnlock()
+		}
+	}()
+	for _, subscopeBucket := range r.subscopes {
+		for _, s := range subscopeBucket.s {
+			f(s)
+		}
+	}
+}""")
+B("c09-benign-lock-every-shard", "C09", "scope_registry.go", _FOREACH_OLD, """func (r *scopeRegistry) ForEachScope(f func(*scope)) {
+	for _, subscopeBucket := range r.subscopes {
+		subscopeBucket.mu.RLock()
+	}
+	for _, subscopeBucket := range r.subscopes {
+		for _, s := range subscopeBucket.s {
+			f(s)
+		}
+	}
+	for _, subscopeBucket := range r.subscopes {
+		subscopeBucket.mu.RUnlock()
+	}
+}""")
+M("c09-lock-every-shard-never-unlocked", "C09", "scope_registry.go", _FOREACH_OLD, """func (r *scopeRegistry) ForEachScope(f func(*scope)) {
+	for _, subscopeBucket := range r.subscopes {
+		subscopeBucket.mu.RLock()
+	}
+	for _, subscopeBucket := range r.subscopes {
+		for _, s := range subscopeBucket.s {
+			f(s)
+		}
+	}
+}""", expect="lock-pairing")
+M("c09-unlock-every-shard-unheld", "C09", "scope_registry.go", _FOREACH_OLD, """func (r *scopeRegistry) ForEachScope(f func(*scope)) {
+	for _, subscopeBucket := range r.subscopes {
+		subscopeBucket.mu.RLock()
+		for _, s := range subscopeBucket.s {
+			f(s)
+		}
+		subscopeBucket.mu.RUnlock()
+	}
+	for _, subscopeBucket := range r.subscopes {
+		subscopeBucket.mu.RUnlock()
+	}
+}""", expect="lock-pairing")
